@@ -158,35 +158,37 @@ def drain (vals : List (Option Nat)) (idx pn : Nat) : Nat → List (Option Nat) 
       (r.1, (pn, v) :: r.2)
     | none => drain vals idx' (pn + 1) rem
 
+/-- the `match (range.start().cmp(&start), range.end().cmp(&end))` of `RemoveIter::new`:
+    (packets after the bounds update, iterator start, iterator end, iterator index) -/
+def removePlan (s : State) (lo hi : Nat) : Option (State × Nat × Nat × Nat) :=
+  match compare lo s.start, compare hi s.endPn with
+  | .lt, .eq | .lt, .gt | .eq, .gt | .eq, .eq =>
+    some (logicalClear s, s.start, s.endPn, s.index)
+  | .lt, .lt | .eq, .lt =>
+    match setStart s (hi + 1) with
+    | none => none
+    | some s1 => some (s1, s.start, hi, s.index)
+  | .gt, .gt | .gt, .eq =>
+    match pnIndex s lo with
+    | none => none
+    | some i =>
+      if lo = 0 then none
+      else
+        match setEnd s (lo - 1) with
+        | none => none
+        | some s1 => some (s1, lo, s.endPn, i)
+  | .gt, .lt =>
+    match pnIndex s lo with
+    | none => none
+    | some i => some (s, lo, hi, i)
+
 /-- `fn remove_range` = `RemoveIter::new` followed by a full drain. `lo ≤ hi` is the
     `PacketNumberRange` the caller built. -/
 def removeRange (s : State) (lo hi : Nat) : Option (State × List (Nat × Nat)) :=
   if isEmpty s then some (s, [])
   else if hi < s.start || lo > s.endPn then some (s, [])
   else
-    -- (packets after the bounds update, iterator start, iterator end, iterator index)
-    let plan : Option (State × Nat × Nat × Nat) :=
-      match compare lo s.start, compare hi s.endPn with
-      | .lt, .eq | .lt, .gt | .eq, .gt | .eq, .eq =>
-        some (logicalClear s, s.start, s.endPn, s.index)
-      | .lt, .lt | .eq, .lt =>
-        match setStart s (hi + 1) with
-        | none => none
-        | some s1 => some (s1, s.start, hi, s.index)
-      | .gt, .gt | .gt, .eq =>
-        match pnIndex s lo with
-        | none => none
-        | some i =>
-          if lo = 0 then none
-          else
-            match setEnd s (lo - 1) with
-            | none => none
-            | some s1 => some (s1, lo, s.endPn, i)
-      | .gt, .lt =>
-        match pnIndex s lo with
-        | none => none
-        | some i => some (s, lo, hi, i)
-    match plan with
+    match removePlan s lo hi with
     | none => none
     | some (s1, itStart, itEnd, itIndex) =>
       let r := drain s1.values itIndex itStart (itEnd - itStart + 1)
@@ -282,6 +284,35 @@ def step (upd : Nat → Nat → Nat) (s : State) : Op → Option (State × Out)
     | none => none
     | some s' => some (s', .unit)
 
+/-- the precondition the code `debug_assert!`s (and its callers satisfy): inserts are strictly
+    above everything contained, `insert_or_update` is not below the start, ranges are ordered -/
+def pre (s : State) : Op → Bool
+  | .insert pn _ => isEmpty s || (decide (pn > s.start) && decide (pn > s.endPn))
+  | .insertOrUpdate pn _ => isEmpty s || decide (pn ≥ s.start)
+  | .removeRange lo hi => decide (lo ≤ hi)
+  | .remove _ => true
+  | .clear => true
+
+/-- a whole history; `none` = some operation panicked -/
+def run (upd : Nat → Nat → Nat) (s : State) : List Op → Option (State × List Out)
+  | [] => some (s, [])
+  | op :: ops =>
+    match step upd s op with
+    | none => none
+    | some (s', o) =>
+      match run upd s' ops with
+      | none => none
+      | some (s'', os) => some (s'', o :: os)
+
+/-- every operation of the history meets `pre` in the state it is applied to -/
+def preAll (upd : Nat → Nat → Nat) (s : State) : List Op → Bool
+  | [] => true
+  | op :: ops =>
+    pre s op &&
+      match step upd s op with
+      | none => false
+      | some (s', _) => preAll upd s' ops
+
 end Quic.Data.PnMap
 
 /-! ### reference: a plain association list -/
@@ -319,5 +350,12 @@ def step (upd : Nat → Nat → Nat) (m : State) : Op → State × Out
   | .remove pn => (erase m pn, .removed (lookup m pn))
   | .removeRange lo hi => (eraseRange m lo hi, .entries (slice m lo (hi + 1 - lo)))
   | .clear => ([], .unit)
+
+def run (upd : Nat → Nat → Nat) (m : State) : List Op → State × List Out
+  | [] => (m, [])
+  | op :: ops =>
+    let r := step upd m op
+    let rest := run upd r.1 ops
+    (rest.1, r.2 :: rest.2)
 
 end Quic.Data.RefMap
